@@ -115,12 +115,14 @@ def as_term(r):
     if not r.d:
         return z3.simplify(r.n)
     c = _axstore(_ctx.current())
-    key = ("frac", z3.simplify(r.n).get_id(), r.d)
+    sn = z3.simplify(r.n)
+    key = ("frac", sn.get_id(), r.d)
     if key in c._uf_apps:
         return c._uf_apps[key]
     v = z3.Real(c.fresh_name("q"))
     dt = r.den_term()
     c._keep.append(r.n)
+    c._keep.append(sn)      # the key is the id of the simplified numerator: ids are only stable while the term is alive
     _add_axiom(c, key, v * dt == r.n, trigger=v)
     c._uf_apps[key] = v
     if not hasattr(c, "_uf_defs"):
@@ -167,8 +169,8 @@ def power(b, e):
     if e.q is not None and 2 <= e.q.denominator <= MAX_INT_POW and abs(e.q.numerator) <= MAX_INT_POW:
         # b^(m/k) = (b^(1/k))^m : one root application (with  root^k = b) and an integer power
         k, mnum = e.q.denominator, e.q.numerator
-        root = sqrt(b) if k == 2 else mkpow(b, R(q=Fraction(1, k)))
-        return power(root, mnum)
+        rt = sqrt(b) if k == 2 else root(b, k)
+        return power(rt, mnum)
     return mkpow(b, e)
 
 
@@ -277,6 +279,29 @@ def _perfect_sqrt(q):
     return None
 
 
+def root(r, k):
+    """Positive k-th root of r >= 0 as a definitional symbol s with  s >= 0, s^k = r  (pure arithmetic: keeps
+    the queries in QF_NRA instead of mixing an uninterpreted SQRT with non-linear arithmetic)."""
+    c = _axstore(_ctx.current())
+    t = as_term(r)
+    key = ("root", k, t.get_id())
+    if key in c._uf_apps:
+        return R(n=c._uf_apps[key], d=())
+    s = z3.Real(c.fresh_name("rt%d" % k))
+    c._keep.append(t)
+    pk = s
+    for _ in range(k - 1):
+        pk = pk * s
+    _add_axiom(c, key, z3.Implies(t >= 0, z3.And(s >= 0, pk == t)), trigger=s)
+    _add_axiom(c, ("rootpos",) + key, z3.Implies(t > 0, s > 0), trigger=s)
+    c._uf_apps[key] = s
+    if not hasattr(c, "_root_defs"):
+        c._root_defs = {}
+    c._root_defs[s.get_id()] = (t, k)
+    c._keep.append(s)
+    return R(n=s, d=())
+
+
 def sqrt(r):
     if isinstance(r, C):
         return r.sqrt()
@@ -288,13 +313,7 @@ def sqrt(r):
         if r.q < 0:
             raise ValueError("symx: sqrt of negative constant")
         return algebraic_sqrt(r.q)
-    c = _axstore(_ctx.current())
-    t = as_term(r)
-    app = SQRT(t)
-    c._keep.append(app)
-    _add_axiom(c, ("sqrt", app.get_id()), z3.Implies(t >= 0, z3.And(app >= 0, app * app == t)), trigger=app)
-    _add_axiom(c, ("sqrtpos", app.get_id()), z3.Implies(t > 0, app > 0), trigger=app)
-    return R(n=app, d=())
+    return root(r, 2)
 
 
 def exp(r):
